@@ -45,6 +45,12 @@ pub fn explore_with(mut make: impl FnMut(u64) -> Input, deviation_bound: Option<
             break;
         }
         let mut run_input = make(stats.schedules);
+        if run_input.map_order.is_none() && run_input.files.len() + run_input.unwalked.len() > 1 {
+            // The iteration order of the block map drives detection, spawn and merge order: an
+            // exploration that does not fix it does not own its schedule.
+            stats.divergence = Some("the input does not fix the block-map order".to_string());
+            break;
+        }
         run_input.choices = streams(&prefix);
         let (outcome, trace, diverged) = librun::run_traced(&run_input);
         let index = stats.schedules;
